@@ -354,6 +354,19 @@ def shape_defs(rng, builtins):
                  rule('simple', cat(set_((min(a, b), max(a, b))), str_(chr(a) + chr(b)), ('star', chr_(c)), chr_(a)))]
         rng.shuffle(items)
         out.append({'name': 'ShCyc%d' % i, 'items': [('errortype',)] + items})
+    # a literal, a range covering it and `_` leaving one state, with different continuations (C02, issue 31)
+    for i in range(6):
+        a, b, c = sorted(rng.sample(LETTERS, 3))
+        x, y, z = rng.sample([ord(ch) for ch in 'xyzw'], 3)
+        variants = [
+            [rule('simple', alt(cat(chr_(b), chr_(x)), cat(set_((a, c)), chr_(y)), cat(ANY, chr_(z))))],
+            [rule('simple', cat(chr_(b), chr_(x))), rule('simple', cat(set_((a, c)), chr_(y))), rule('simple', cat(ANY, chr_(z)))],
+            [rule('simple', cat(ANY, chr_(z))), rule('simple', cat(set_((a, b), c), ('plus', chr_(y)))), rule('simple', cat(chr_(a), ('star', chr_(x)), chr_(z)))],
+            [rule('simple', cat(('opt', chr_(b)), alt(cat(chr_(b), chr_(x)), cat(set_((a, c)), chr_(y)), cat(ANY, chr_(z)))))],
+            [rule('simple', cat(('star', alt(chr_(b), set_((a, c)), ANY)), chr_(x))), rule('simple', chr_(b))],
+            [rule('simple', cat(alt(chr_(b), set_((a, c))), chr_(x))), rule('simple', cat(ANY, chr_(y))), rule('simple', chr_(b), alt(cat(chr_(b), chr_(x)), cat(ANY, chr_(y))))],
+        ]
+        out.append({'name': 'ShMix%d' % i, 'items': [('errortype',)] + variants[i]})
     # removed / inlined states before later entries (C03)
     for i in range(6):
         sets = []
